@@ -57,7 +57,7 @@ class RecordingDeque(collections.deque):
 
 def gen(rng, tier, index):
     flavour = rng.choice(["serial", "tcp"])
-    scenario = rng.choice(["A", "A", "A", "B"])
+    scenario = rng.choice(["A", "A", "A", "B", "S"])
     policy = rng.choice(["pct", "pct", "rw", "rw"])
     sched = {"policy": policy, "seed": rng.getrandbits(32)}
     if policy == "pct":
@@ -66,9 +66,9 @@ def gen(rng, tier, index):
     else:
         sched["p"] = rng.choice([0.01, 0.03, 0.08, 0.2])
     events = EVENTS_TCP if flavour == "tcp" else EVENTS_SERIAL
-    return {"cfg": {"flavour": flavour, "version": rng.choice(["1.4", "2.0", "2.2"]), "scenario": scenario,
+    return {"cfg": {"flavour": flavour, "version": rng.choice(["1.4", "2.0", "2.2"]) if scenario != "S" else rng.choice(["2.0", "2.1", "2.2"]), "scenario": scenario,
                     "event": rng.choice(events) if scenario == "A" else "none", "n_cmds": rng.randint(1, 6),
-                    "producers": rng.randint(2, 4) if scenario == "B" else 1, "gaps": [rng.choice([0, 0, 0.005, 0.02, 0.03]) for _ in range(8)],
+                    "producers": rng.randint(2, 4) if scenario in ("B", "S") else 1, "gaps": [rng.choice([0, 0, 0.005, 0.02, 0.03]) for _ in range(8)],
                     "event_delay": rng.choice([0, 0, 0.001, 0.01, 0.02, 0.04]), "sched": sched}}
 
 
@@ -90,6 +90,13 @@ def run(case):
             gateway.tasks.queue = rec
             world.start()
             world.feed("1;255;0;0;17;2.0\n1;1;0;0;23;x\n")
+            wake = None
+            if cfg["scenario"] == "S":
+                # a smart-sleep node whose every wake-up makes the pump queue follow-up jobs (held reply +
+                # desired value) while the producers keep queueing commands for the awake node 1
+                wake = "3;255;3;0;32;5\n" if cfg["version"] == "2.2" else "3;255;3;0;22;5\n"
+                world.feed("3;255;0;0;17;2.0\n3;1;0;0;23;y\n" + wake + "3;1;1;0;24;r\n")
+                gateway.set_child_value(3, 1, 24, "want")
             base_w = len(world.device.writes)
             conn0 = world.device.current()
             tags = []
@@ -126,6 +133,11 @@ def run(case):
                 sim.spawn(producer, pid, role="controller")
             if cfg["scenario"] == "A":
                 sim.spawn(teardown, role="teardown")
+            if wake is not None:
+                for i in range(4):
+                    sim.sleep(cfg["gaps"][i % len(cfg["gaps"])] or 0.013)
+                    world.device.inject(("3;1;2;0;24;\n" + wake).encode())  # a value request (held) and the next wake-up
+                    probes["wakeups_during_production"] = probes.get("wakeups_during_production", 0) + 1
             sim.sleep(1.0)
             world.settle()
             # ---- observations -------------------------------------------------------------
@@ -138,6 +150,7 @@ def run(case):
                 else:
                     probes["other_thread_died:" + role] = 1
             writes = world.device.writes[base_w:]
+            tagset = set(tags)
             seen = collections.Counter()
             order = []
             for _t, _seq, conn_id, is_open, data in writes:
@@ -148,6 +161,8 @@ def run(case):
                     violations.append(_vio("partial-write", {"data": text, "conn": conn_id}))
                     continue
                 payload = text[:-1].split(";", 5)[-1]
+                if payload not in tagset and payload != "probe":
+                    continue  # bursts for the sleeping node (scenario S) are C08's business
                 seen[payload] += 1
                 order.append(payload)
                 if not is_open:
@@ -164,7 +179,7 @@ def run(case):
                 if line:
                     appended.append(line[:-1].split(";", 5)[-1])
             appended = [a for a in appended if a in set(tags)]
-            if cfg["scenario"] == "B" and not violations:
+            if cfg["scenario"] in ("B", "S") and not violations:
                 missing = [t for t in tags if seen[t] == 0]
                 if missing:
                     violations.append(_vio("command-lost-with-link-up", {"missing": missing, "written": order}))
@@ -209,7 +224,7 @@ def run(case):
         now = sim.now
         pre = sim.preemptions
         world.close()
-    nontrivial = bool(pre and (probes.get("teardown_while_queued") or cfg["scenario"] == "B"))
+    nontrivial = bool(pre and (probes.get("teardown_while_queued") or cfg["scenario"] in ("B", "S")))
     return {"violations": violations, "digest": digest, "nontrivial": nontrivial, "key": inter or digest, "probes": probes,
             "faults": {cfg["event"]: 1}, "steps": steps, "sim_seconds": now, "incomplete": incomplete, "interleaving": inter,
             "sched": sched, "states": [],
